@@ -36,6 +36,7 @@ import (
 type c39World struct {
 	s       *dsim.Sim
 	dir     string
+	root    string
 	path    string
 	state   string // model of the path
 	content []byte // last full content written by the loader (valid key file)
@@ -59,12 +60,19 @@ func init() {
 
 func (w *c39World) Setup(s *dsim.Sim) {
 	w.s = s
-	d, err := os.MkdirTemp("", "dsim-c39-")
+	// (the name carries the pid: processes that run the same seed at the same time draw the
+	// same "random" names; the scratch directory proper is a fixed child that reset()
+	// removes and recreates, the parent stays)
+	root, err := os.MkdirTemp("", fmt.Sprintf("dsim-c39-%d-", os.Getpid()))
 	if err != nil {
 		panic(err)
 	}
-	w.dir = d
-	w.path = filepath.Join(d, "node.pem")
+	w.root = root
+	w.dir = filepath.Join(root, "d")
+	if err := os.Mkdir(w.dir, 0o755); err != nil {
+		panic(err)
+	}
+	w.path = filepath.Join(w.dir, "node.pem")
 	w.state = "missing"
 	w.maxOps = 2 + s.Tape.Draw(10, "max-ops")
 }
@@ -274,5 +282,5 @@ func (w *c39World) Final(s *dsim.Sim, stuck bool) *dsim.Violation {
 }
 func (w *c39World) Teardown(s *dsim.Sim) {
 	_ = os.Chmod(filepath.Join(w.dir, "ro"), 0o755)
-	_ = os.RemoveAll(w.dir)
+	_ = os.RemoveAll(w.root)
 }
